@@ -27,6 +27,7 @@ CONSTANTS SAdd(_,_), SMul(_,_), SNeg(_), SDiv(_,_), SFn(_,_), SPow(_,_), SDPow(_
           SGt(_,_,_),    \* SGt(x, thr, observed): is x > thr (domains that cannot decide adopt `observed`)
           PIn(_),        \* exponent descriptor
           Canon(_,_),    \* Canon(n, t): the tensor stored for node n (symbolic domain: fresh symbols + definition)
+          Tainted(_),    \* Tainted(t): the specified tensor left the exact domain (poison value)
           Exact,         \* BOOLEAN: values are decided by this validator
           Rec            \* the recorded events (sequence of records)
 
@@ -37,7 +38,7 @@ VARIABLES l, S, dig, skip, lastcmp, stats
 vars == <<l, S, dig, skip, lastcmp, stats>>
 
 Stats0 == [cases |-> 0, bad |-> 0, unspec |-> 0, judged |-> 0, refusals |-> 0, passes |-> 0,
-           evals |-> 0, owned |-> 0, adopted |-> 0, updates |-> 0, skipped |-> 0]
+           evals |-> 0, owned |-> 0, adopted |-> 0, updates |-> 0, skipped |-> 0, left |-> 0]
 
 Init == /\ l = 1 /\ S = EmptyState /\ dig = <<>> /\ skip = FALSE /\ lastcmp = FALSE /\ stats = Stats0
 
@@ -70,17 +71,21 @@ CheckLive(e, S2, dig2) ==
 (* Judgement of one event: [why, S, dig, cmp, unspec, st]                  *)
 (*   why = "" accepted so far (the live section is checked afterwards)     *)
 (***************************************************************************)
-J(why, S2, dig2) == [why |-> why, S |-> S2, dig |-> dig2, cmp |-> lastcmp, unspec |-> FALSE, st |-> <<>>]
-JS(why, S2, dig2, st) == [why |-> why, S |-> S2, dig |-> dig2, cmp |-> lastcmp, unspec |-> FALSE, st |-> st]
+J(why, S2, dig2) == [why |-> why, S |-> S2, dig |-> dig2, cmp |-> lastcmp, unspec |-> FALSE, left |-> FALSE, st |-> <<>>]
+JS(why, S2, dig2, st) == [why |-> why, S |-> S2, dig |-> dig2, cmp |-> lastcmp, unspec |-> FALSE, left |-> FALSE, st |-> st]
 Bad(why) == J(why, S, dig)
-Unspec == [why |-> "", S |-> S, dig |-> dig, cmp |-> lastcmp, unspec |-> TRUE, st |-> <<>>]
+Unspec == [why |-> "", S |-> S, dig |-> dig, cmp |-> lastcmp, unspec |-> TRUE, left |-> FALSE, st |-> <<>>]
+\* the specified values left the exact domain: nothing is judged from here on in this case
+LeftExact == [Unspec EXCEPT !.left = TRUE]
+GradsTainted(S2) == \E n \in 1..Len(S2.grad) : IsSome(S2.grad[n]) /\ Tainted(S2.grad[n].x)
 
 DigPut(d, h, x) == [k \in (DOMAIN d) \cup {h} |-> IF k = h THEN x ELSE d[k]]
 DigDel(d, h) == [k \in (DOMAIN d) \ {h} |-> d[k]]
 
 \* a step that creates handle e.res on a fresh node whose specified tensor is t, next state S2
 NewValue(e, S2, t, st) ==
-  IF e.panic THEN Bad("unexpected-panic")
+  IF Tainted(t) THEN LeftExact
+  ELSE IF e.panic THEN Bad("unexpected-panic")
   ELSE IF ~Has(e, "new") THEN Bad("no-result")
   ELSE IF e.new.d # t.d THEN Bad("dims")
   ELSE IF ~TMatch(e.new, t) THEN Bad("values")
@@ -139,6 +144,7 @@ JudgeBackward(e) ==
                      \E c \in Consumers(S, nodeOf(evs[i].u), root, adj) :
                         S.nodes[c].op \in CustomOps /\ ~\E j \in 1..(i-1) : evs[j].u = S.nodes[c].uid
   IN IF seedOpt # None /\ seedOpt.x.d # HandleT(S, h).d THEN Unspec
+     ELSE IF GradsTainted(S2) \/ \E n \in 1..root : IsSome(adj[n]) /\ Tainted(adj[n].x) THEN LeftExact
      ELSE IF gotU # expectU THEN Bad("eval-set")
      ELSE IF Len(evs) # Cardinality(expectU) THEN Bad("eval-once")
      ELSE IF \E i \in 1..Len(evs) : ~TMatch(evs[i].adj, adj[nodeOf(evs[i].u)].x) THEN Bad("eval-adjoint")
@@ -152,7 +158,8 @@ JudgeUpdate(e) ==
       dims == \E i \in 1..Len(e.args) : e.newp[i].d # HandleT(S2, e.args[i]).d
       dig2 == [h \in DOMAIN dig |-> IF \E i \in 1..Len(e.args) : e.args[i] = h
                                     THEN e.newp[CHOOSE i \in 1..Len(e.args) : e.args[i] = h].x ELSE dig[h]]
-  IN IF dims THEN Bad("update-dims") ELSE IF wrong THEN Bad("update-values")
+  IN IF \E i \in 1..Len(e.args) : Tainted(HandleT(S2, e.args[i])) THEN LeftExact
+     ELSE IF dims THEN Bad("update-dims") ELSE IF wrong THEN Bad("update-values")
      ELSE JS("", S2, dig2, <<"updates">>)
 
 JudgeModel(e) ==
@@ -186,13 +193,15 @@ JudgeModel(e) ==
      ELSE IF st = "refuse" THEN (IF e.panic THEN JS("", S, dig, <<"refusals">>) ELSE Bad("expected-refusal"))
      ELSE IF e.panic THEN Bad("unexpected-panic")
      ELSE LET r == ModelBackward(S, e.args[1], e.i) IN
-          IF ~SMatch(e.ret, r.loss) THEN Bad("loss") ELSE JS("", r.S, dig, <<"passes">>)
+          IF GradsTainted(r.S) \/ Tainted(T(<<1>>, <<r.loss>>)) THEN LeftExact
+          ELSE IF ~SMatch(e.ret, r.loss) THEN Bad("loss") ELSE JS("", r.S, dig, <<"passes">>)
   ELSE IF e.op = "m_update" THEN
      IF e.panic THEN Bad("unexpected-panic") ELSE
      LET S2 == ModelUpdate(S, e.i)
          ps == AllParams(S, S.model.layers)
+         tainted == \E i \in 1..Len(ps) : Tainted(HandleT(S2, ps[i]))
          dig2 == [h \in DOMAIN dig |-> IF \E i \in 1..Len(ps) : ps[i] = h THEN ObsOf(e, h).x ELSE dig[h]]
-     IN JS("", S2, dig2, <<"updates">>)
+     IN IF tainted THEN LeftExact ELSE JS("", S2, dig2, <<"updates">>)
   ELSE Bad("TOOLERR-unknown-op")
 
 Judge(e) ==
@@ -235,6 +244,7 @@ Judge(e) ==
   ELSE IF e.op \in DiffOps THEN JudgeApply(e)
   ELSE IF e.op = "sum_all" THEN
      IF e.panic THEN Bad("unexpected-panic")
+     ELSE IF Tainted(T(<<1>>, <<SumAll(HandleT(S, e.args[1]))>>)) THEN LeftExact
      ELSE IF ~SMatch(e.ret, SumAll(HandleT(S, e.args[1]))) THEN Bad("values") ELSE JS("", S, dig, <<"judged">>)
   ELSE IF e.op = "clone" THEN J("", Clone(S, e.args[1], e.res), DigPut(dig, e.res, dig[e.args[1]]))
   ELSE IF e.op = "drop" THEN J("", Drop(S, e.args[1]), DigDel(dig, e.args[1]))
@@ -270,8 +280,9 @@ Step ==
      ELSE \E j \in {Judge(e)} :
           \E why \in {IF j.why # "" \/ j.unspec THEN j.why ELSE CheckLive(e, j.S, j.dig)} :
              IF j.unspec THEN
-                /\ PrintT(<<"UNSPEC", e.case, e.i, e.op>>)
-                /\ skip' = TRUE /\ stats' = [stats EXCEPT !.unspec = @ + 1] /\ UNCHANGED <<S, dig, lastcmp>>
+                /\ PrintT(<<IF j.left THEN "LEFTEXACT" ELSE "UNSPEC", e.case, e.i, e.op>>)
+                /\ skip' = TRUE /\ UNCHANGED <<S, dig, lastcmp>>
+                /\ stats' = IF j.left THEN [stats EXCEPT !.left = @ + 1] ELSE [stats EXCEPT !.unspec = @ + 1]
              ELSE IF why # "" THEN
                 /\ Report(e, why)
                 /\ skip' = TRUE /\ stats' = [stats EXCEPT !.bad = @ + 1] /\ UNCHANGED <<S, dig, lastcmp>>
